@@ -52,7 +52,7 @@ func (s *StorageClient) Set(key string, item *mc.Item, noreply bool) (bool, erro
 	}
 	ki := s.prepare(key, false)
 	payload := &store.Payload{}
-	payload.Flag = uint32(item.Flag)
+	payload.Flag = uint32(item.Flag) &^ store.FLAG_COMPRESS // the compression bit belongs to the server
 	payload.CArray = item.CArray
 	payload.Ver = int32(item.Exptime)
 	payload.TS = uint32(item.ReceiveTime.Unix())
